@@ -27,8 +27,8 @@ NOTE = {
  "C26": "Call sites (which spans each assembler/linker error carries; 'lies within the source') assumed, except replace_pc_offset's label span (undefined / external / out-of-range label operands).",
  "C27": "As C08 (L2 compares each entered frame's caller, callee and kind with the reference through push_frame's contract). Debug frames: <= 1 prior frame, <= 2 parameters, no signature registered (obligations with a registered signature ran out of memory: re-registration and the built-in trap signatures are assumed).",
  "C28": "As C08; observer map bounded (2 updates); what is recorded for device-page reads is not constrained (the property speaks of non-I/O addresses).",
- "C29": "Bounded and partial: concrete start address and concrete S/N shape per obligation. Not covered: Simulator::load_obj_file (iteration over the object file's BTreeMap of blocks, external-symbol rejection, alloca list), registers/PC unchanged by load (copy_obj_block itself only receives the memory array), Simulator::new loading the OS image.",
- "C30": "new_with_mcr replaced by a recording stub (its body -- OS load, machine init -- is not verified here: 'equals a new simulator' holds by construction of reset calling it once with the same flags and MCR handle); register map compared by content for one concrete mapping; breakpoint set not compared by content; io_reset per device slot bounded (4 slots) and its call by reset not required.",
+ "C29": "Bounded and partial: copy_obj_block with concrete start address and concrete S/N shape per obligation; the constructor new_with_mcr (I/O page zero, OS loaded once) with MemArray::new, <[Word]>::fill (single-element contract), load_os, FrameStack::new and the rand sources stubbed. Not covered: Simulator::load_obj_file (iteration over the object file's BTreeMap of blocks, external-symbol rejection, alloca list), registers/PC unchanged by load, the content of the OS image.",
+ "C30": "reset is verified against new_with_mcr replaced by a recording stub ('equals a new simulator' holds by construction of reset calling it once with the same flags and MCR handle); the constructor's body has its own obligations (K.new.*) with MemArray::new, <[Word]>::fill, load_os, FrameStack::new and rand stubbed -- OS image and the 64K memory fill are not verified; register map compared by content for one concrete mapping; breakpoint set not compared by content; io_reset per device slot bounded (4 slots) and its call by reset not required.",
  "C32": "Device counts bounded (<= 5 slots, <= 2 requested ports); remove_device explored per removed id with one symbolic owner, plus one concrete multi-port table; mmap_internal with concrete addresses (hashing a symbolic key is out of reach); <SimDevice as ExternalDevice> calls replaced by slot-recording stubs; real keyboard/display devices with buffers <= 2 bytes; custom devices (Box<dyn ExternalDevice>) abstracted.",
  "C34": "Assumed: StdRng's raw output is arbitrary (ChaCha not executed) and rand's range reduction is verified through only for four concrete ranges; try_generate_time's contract in the Verus unit is otherwise assumed; ranges must be subsets of [1, inf) for the interval lemma; same-seed reproducibility (rand) not claimed.",
  "C35": "rustc/Kani/CBMC/CaDiCaL trusted; std verified through",
